@@ -33,6 +33,10 @@ CLAIMED = {
    text="Seeded search over Acyclic<DiGraph> and Acyclic<StableDiGraph> histories (four index widths): add_node, try_add_edge, try_update_edge, Build::add_edge/update_edge, remove_edge, remove_node (present, absent, vacant, repeated; biased to non-last nodes of a DiGraph so another node is renumbered), is_valid_edge probes, try_from_graph / TryFrom on seeded cyclic and acyclic graphs with holes. A reachability DFS on the reference model predicts accept / SelfLoop / Cycle exactly; after every step the inner graph must equal the model (same full observation as C01/C02), nodes_iter must list exactly the live nodes, get_position/at_position must be inverse, range(..) must equal nodes_iter, nodes_iter must be sorted by position and every edge must go from an earlier to a later position; a rejected insertion or a removal of an absent node must leave graph and order sequence identical; is_valid_edge must agree with the following insertion. Exploration.",
    note="Edge insertions are only issued between existing nodes (the documentation says they panic otherwise); removal of an absent node may return None or panic, the state must be intact either way.",
    technique=HIST),
+ "C17": dict(engine="stream:serde", design="DESIGN.md §2 C17",
+   text="Stream simulation: a source Graph / StableGraph / GraphMap built by a seeded mini-history (vacancies, renumbering, full u8 index space; weights (), (i32, adversarial String) or u32) is serialised with serde_json / bincode through a simulated writer onto a simulated disk and deserialised through a simulated reader into the same type, the sibling type or a GraphMap. Faults (0-3 per run, counted when they fire): short writes/reads and EINTR (benign), write error, torn write, read error (crashing), bit flip, byte overwrite, truncation, appended garbage, duplicated range (corrupting), and twelve semantic edits applied to the decoded wire structure (endpoint redirected to a hole / out of range, holes swapped / duplicated / beyond the bound / trailing / inserted in the middle, edge_property swapped, node or edge counts padded to the index limit, edge holes inserted, node dropped). Oracle: with benign faults only the load must succeed and the observation (indices, weights, direction, vacancies) must equal the one taken from the source before serialising (a vacancy-free StableGraph loads as Graph, any Graph as StableGraph); otherwise no panic, and either Err or a graph that passes deep consistency: observation self-consistency, the C06 visit battery, and a seeded follow-up history of 8-24 operations in lock-step with a model initialised from the loaded graph's own observation. Exploration.",
+   note="bincode is run with a 4 MiB size limit and hostile streams only with u32 weights, so that a mutated length prefix is an Err and not an allocation the process cannot survive (a property of bincode/serde, not of petgraph). serde_json, bincode and std::io retry loops are trusted.",
+   technique="deterministic simulation: simulated writer/disk/reader with injected I/O, corruption and semantic faults; round-trip equality and post-load refinement oracle"),
  "C19": dict(engine="history:unionfind", design="DESIGN.md §2 C19",
    text="Seeded search over UnionFind call histories (all four index widths, u8 filled to its 256-element capacity) run in lock-step against a label-array partition model; after every call the full equivalence relation, the stability of class representatives (find / find_mut / try_* / into_labeling agree and compression changes nothing) and len are compared; out-of-range arguments and absurd try_reserve sizes are injected as faults and must give exactly the documented Err/panic with the partition unchanged. Exploration, not proof: a clean batch means no sampled history disagreed.",
    note="Trusts the label-array model (about 20 lines) and Vec's try_reserve returning Err for a request above isize::MAX. new_set beyond the index type's capacity is outside the property's domain and is not issued.",
